@@ -56,14 +56,17 @@ struct c17_drv {
     /* configuration */
     struct c17_step script[SLEN];
     unsigned char *mem; /* source: the stream; sink: the store */
-    size_t cap;         /* source: stream length; sink: capacity (>= limit) */
+    uint8_t cap;        /* source: stream length; sink: capacity (>= limit) */
     bool limited;
-    size_t limit; /* octets the operation under test may move at most */
+    uint8_t limit; /* octets the operation under test may move at most */
     int hard_err;
-    unsigned grace; /* calls tolerated after an error was reported */
-    /* state */
-    size_t pos;
-    unsigned calls, step, stalls, after;
+    uint8_t grace; /* calls tolerated after an error was reported */
+    /* state (small types on purpose: every operation on them is bit-blasted
+     * once per unrolled driver call; none can overflow: pos <= cap <= 255,
+     * calls/step/after saturate long before 255 because of the breach rule
+     * and the unwinding bounds) */
+    uint8_t pos;
+    uint8_t calls, step, stalls, after;
     bool hard_seen, dry_seen, neg_seen, breach, partial_seen, zero_seen,
         eintr_seen, eagain_seen;
 };
@@ -83,139 +86,148 @@ c17_err_ok(int e)
     return e < 0 && e != -EINTR && e != -EAGAIN;
 }
 
-static void
-c17_drv_init(struct c17_drv *d, const struct c17_step *script,
-             unsigned char *mem, size_t cap, bool limited, size_t limit,
-             int hard_err, unsigned grace)
-{
-    const struct c17_drv zero = { .mem = NULL };
-    *d = zero;
-    for (unsigned i = 0; i < SLEN; ++i)
-        d->script[i] = script[i];
-    d->mem = mem;
-    d->cap = cap;
-    d->limited = limited;
-    d->limit = limit;
-    d->hard_err = hard_err;
-    d->grace = grace;
-}
+/* The two driver instances are file-scope objects addressed by name (no
+ * pointer indirection in the solver's model: cheaper by a large factor). */
+static struct c17_drv c17_sd; /* the source driver */
+static struct c17_drv c17_kd; /* the sink driver */
 
-static ssize_t
-c17_breach(struct c17_drv *d)
-{
-    d->breach = true;
-    d->neg_seen = true;
-    return -EIO;
-}
+#define C17_DEFINE_DRIVER(NAME, D, IS_SOURCE)                                 \
+    static void NAME##_init(const struct c17_step *script,                    \
+                            unsigned char *mem, size_t cap, bool limited,     \
+                            size_t limit, int hard_err, unsigned grace)       \
+    {                                                                         \
+        const struct c17_drv zero = { .mem = NULL };                          \
+        D = zero;                                                             \
+        for (unsigned i = 0; i < SLEN; ++i)                                   \
+            D.script[i] = script[i];                                          \
+        D.mem = mem;                                                          \
+        D.cap = (uint8_t)cap;                                                 \
+        D.limited = limited;                                                  \
+        D.limit = (uint8_t)limit;                                             \
+        D.hard_err = hard_err;                                                \
+        D.grace = (uint8_t)grace;                                             \
+    }                                                                         \
+    static ssize_t NAME##_breach(void)                                        \
+    {                                                                         \
+        D.breach = true;                                                      \
+        D.neg_seen = true;                                                    \
+        return -EIO;                                                          \
+    }                                                                         \
+    static ssize_t NAME##_call(size_t m, unsigned char *to,                   \
+                               const unsigned char *from)                     \
+    {                                                                         \
+        if (D.calls < 255u)                                                   \
+            D.calls++;                                                        \
+        if (D.breach)                                                         \
+            return -EIO;                                                      \
+        if (D.hard_seen || D.dry_seen) {                                      \
+            D.after++;                                                        \
+            VP_ASSERT(D.after <= D.grace, "C17.drv.no-call-after-error");     \
+            if (D.after > D.grace)                                            \
+                return NAME##_breach();                                       \
+            return D.hard_seen ? (ssize_t)D.hard_err : (ssize_t)-ENODATA;     \
+        }                                                                     \
+        if (D.limited && m > (size_t)(uint8_t)(D.limit - D.pos)) {                               \
+            VP_ASSERT(false, "C17.drv.asked-beyond-N");                       \
+            return NAME##_breach();                                           \
+        }                                                                     \
+        if (D.step >= SLEN) {                                                 \
+            VP_ASSERT(false, "C17.drv.call-bound");                           \
+            return NAME##_breach();                                           \
+        }                                                                     \
+        const struct c17_step s = D.script[D.step++];                         \
+        unsigned kind = s.kind;                                               \
+        if (kind == K_ZERO || kind == K_EINTR || kind == K_EAGAIN) {          \
+            if (D.stalls < STALL) {                                           \
+                D.stalls++;                                                   \
+                if (kind == K_ZERO) {                                         \
+                    D.zero_seen = true;                                       \
+                    return 0;                                                 \
+                }                                                             \
+                D.neg_seen = true;                                            \
+                if (kind == K_EINTR) {                                        \
+                    D.eintr_seen = true;                                      \
+                    return -EINTR;                                            \
+                }                                                             \
+                D.eagain_seen = true;                                         \
+                return -EAGAIN;                                               \
+            }                                                                 \
+            kind = K_MOVE;                                                    \
+        }                                                                     \
+        if (kind == K_HARD) {                                                 \
+            D.hard_seen = true;                                               \
+            D.neg_seen = true;                                                \
+            return (ssize_t)D.hard_err;                                       \
+        }                                                                     \
+        if (IS_SOURCE && D.pos == D.cap) {                                    \
+            D.dry_seen = true;                                                \
+            D.neg_seen = true;                                                \
+            return -ENODATA;                                                  \
+        }                                                                     \
+        uint8_t r = s.count;                                                  \
+        if (r > m)                                                            \
+            r = (uint8_t)m;                                                   \
+        if (r > (uint8_t)(D.cap - D.pos))                                     \
+            r = (uint8_t)(D.cap - D.pos);                                     \
+        for (uint8_t i = 0; i < r; ++i) {                                     \
+            if (IS_SOURCE)                                                    \
+                to[i] = D.mem[(uint8_t)(D.pos + i)];                          \
+            else                                                              \
+                D.mem[(uint8_t)(D.pos + i)] = from[i];                        \
+        }                                                                     \
+        D.pos = (uint8_t)(D.pos + r);                                         \
+        if (r < m)                                                            \
+            D.partial_seen = true;                                            \
+        return (ssize_t)r;                                                    \
+    }
 
-static ssize_t
-c17_call(struct c17_drv *d, size_t m, bool is_source, unsigned char *to,
-         const unsigned char *from)
-{
-    d->calls++;
-    if (d->breach)
-        return -EIO;
-    if (d->hard_seen || d->dry_seen) {
-        d->after++;
-        VP_ASSERT(d->after <= d->grace, "C17.drv.no-call-after-error");
-        if (d->after > d->grace)
-            return c17_breach(d);
-        return d->hard_seen ? (ssize_t)d->hard_err : (ssize_t)-ENODATA;
-    }
-    if (d->limited && m > d->limit - d->pos) {
-        VP_ASSERT(false, "C17.drv.asked-beyond-N");
-        return c17_breach(d);
-    }
-    if (d->step >= SLEN) {
-        VP_ASSERT(false, "C17.drv.call-bound");
-        return c17_breach(d);
-    }
-    const struct c17_step s = d->script[d->step++];
-    unsigned kind = s.kind;
-    if (kind == K_ZERO || kind == K_EINTR || kind == K_EAGAIN) {
-        if (d->stalls < STALL) {
-            d->stalls++;
-            if (kind == K_ZERO) {
-                d->zero_seen = true;
-                return 0;
-            }
-            d->neg_seen = true;
-            if (kind == K_EINTR) {
-                d->eintr_seen = true;
-                return -EINTR;
-            }
-            d->eagain_seen = true;
-            return -EAGAIN;
-        }
-        kind = K_MOVE;
-    }
-    if (kind == K_HARD) {
-        d->hard_seen = true;
-        d->neg_seen = true;
-        return (ssize_t)d->hard_err;
-    }
-    if (is_source && d->pos == d->cap) {
-        d->dry_seen = true;
-        d->neg_seen = true;
-        return -ENODATA;
-    }
-    size_t r = s.count;
-    if (r > m)
-        r = m;
-    if (r > d->cap - d->pos)
-        r = d->cap - d->pos;
-    for (size_t i = 0; i < r; ++i) {
-        if (is_source)
-            to[i] = d->mem[d->pos + i];
-        else
-            d->mem[d->pos + i] = from[i];
-    }
-    d->pos += r;
-    if (r < m)
-        d->partial_seen = true;
-    return (ssize_t)r;
-}
+C17_DEFINE_DRIVER(c17_src, c17_sd, true)
+C17_DEFINE_DRIVER(c17_snk, c17_kd, false)
 
 static int
 c17_src_octet(void *drv, void *data)
 {
-    return (int)c17_call(drv, 1u, true, data, NULL);
+    (void)drv;
+    return (int)c17_src_call(1u, data, NULL);
 }
 
 static ssize_t
 c17_src_chunk(void *drv, void *data, size_t n)
 {
-    return c17_call(drv, n, true, data, NULL);
+    (void)drv;
+    return c17_src_call(n, data, NULL);
 }
 
 static int
 c17_snk_octet(void *drv, unsigned char c)
 {
-    return (int)c17_call(drv, 1u, false, NULL, &c);
+    (void)drv;
+    return (int)c17_snk_call(1u, NULL, &c);
 }
 
 static ssize_t
 c17_snk_chunk(void *drv, const void *data, size_t n)
 {
-    return c17_call(drv, n, false, NULL, data);
+    (void)drv;
+    return c17_snk_call(n, NULL, data);
 }
 
 static void
-c17_source(Source *s, struct c17_drv *d, bool octet)
+c17_source(Source *s, bool octet)
 {
     if (octet)
-        octet_source_init(s, c17_src_octet, d);
+        octet_source_init(s, c17_src_octet, &c17_sd);
     else
-        chunk_source_init(s, c17_src_chunk, d);
+        chunk_source_init(s, c17_src_chunk, &c17_sd);
 }
 
 static void
-c17_sink(Sink *s, struct c17_drv *d, bool octet)
+c17_sink(Sink *s, bool octet)
 {
     if (octet)
-        octet_sink_init(s, c17_snk_octet, d);
+        octet_sink_init(s, c17_snk_octet, &c17_kd);
     else
-        chunk_sink_init(s, c17_snk_chunk, d);
+        chunk_sink_init(s, c17_snk_chunk, &c17_kd);
 }
 
 /* a[0..n) == b[0..n), n <= max (max is the compile-time loop bound) */
